@@ -47,6 +47,8 @@ def check_reverse(sc):
     orig = list(sc.rows)
     r1 = sc.reverse()
     r2 = r1.reverse()
+    if len(r1.rows) != n or len(r2.rows) != n:
+        return False
     ok = AND(len(r1.rows) == n, len(r2.rows) == n, r1.length == total, r2.length == total,
              r1.name == sc.name, r1.original_name == sc.original_name, r2.name == sc.name)
     ok = AND(ok, len(sc.rows) == n, all(a is b for a, b in zip(sc.rows, orig)))   # source not mutated
@@ -56,6 +58,33 @@ def check_reverse(sc):
             ok = AND(ok, r2.rows[i] == orig[i])      # the class's own equality agrees
     ok = AND(ok, r1.fragments_length == sc.fragments_length, r1.gaps_length == sc.gaps_length)
     return ok
+'''
+
+
+HEAD += '''
+
+def reverse_after_edits(s0: int, n0: int, g: int, s1: int, n1: int, st0: int, st1: int) -> bool:
+    """
+    pre: s0 >= 1 and n0 >= 1 and g >= 1 and s1 >= 1 and n1 >= 1 and -1 <= st0 <= 1 and -1 <= st1 <= 1
+    post: _
+    """
+    # history: reverse, EDIT the scaffold in place (add_row, append_scaffold), reverse again:
+    # the second reversal must reflect the edited rows (a remembered partner would be stale);
+    # also: grow a scaffold obtained from reverse() and reverse it
+    START()
+    sc = Scaffold("scf", [Fragment("a", s0, s0 + n0 - 1, st0, ("Painted",))])
+    r0 = sc.reverse()
+    ok = check_reverse(sc)
+    sc.add_row(mkgap(g))
+    sc.add_row(Fragment("b", s1, s1 + n1 - 1, st1))
+    ok = AND(ok, check_reverse(sc))
+    other = Scaffold("o", [Fragment("c", s1, s1 + n1 - 1, st0)])
+    sc.append_scaffold(other, mkgap(g))
+    ok = AND(ok, check_reverse(sc), len(sc.reverse().rows) == 5)
+    r0.add_row(mkgap(g))
+    r0.add_row(Fragment("d", s0, s0 + n0 - 1, st1))
+    ok = AND(ok, check_reverse(r0), len(r0.reverse().rows) == 3)
+    return FIN(ok)
 '''
 
 
@@ -173,9 +202,19 @@ def lemma_rc_involution():
     shape seq[::-1].translate(T) gives rc(s)[i] = T[s[n-1-i]]."""
     import z3
     t0 = time.time()
+    simple = _load_simple()
+    # whatever the function looks like: the real function applied twice to the 256 single bytes and to
+    # the string of all byte values must return them unchanged, and once must preserve the length
+    allb = bytes(range(256))
+    for v in [allb] + [bytes([b]) for b in range(256)]:
+        once = simple.reverse_complement(v)
+        if len(once) != len(v) or simple.reverse_complement(once) != v:
+            bad = next((b for b in range(256) if simple.reverse_complement(simple.reverse_complement(bytes([b]))) != bytes([b])
+                        or len(simple.reverse_complement(bytes([b]))) != 1), v[0] if v else 0)
+            return {"result": "sat", "expect": "unsat", "witness": [bad],
+                    "detail": f"concrete evaluation of the real reverse_complement: rc(rc(x)) != x or length changed for byte {bad}"}
     if not _rc_shape_ok():
         return {"result": "unknown", "expect": "unsat", "detail": "reverse_complement no longer has the shape seq[::-1].translate(IUPAC_COMPLEMENT)"}
-    simple = _load_simple()
     tbl = bytes(simple.IUPAC_COMPLEMENT)
     # validate the model of the function against the real function on concrete vectors
     vecs = [bytes(range(256)), b"", b"A", b"ACGTNacgtnRYMKSWHBVD", b"AAAA---CCCCC", b"GATTACAgattacaNNN"]
@@ -212,7 +251,7 @@ def replay_byte(cond, args, kwargs):
     rc = simple.reverse_complement(simple.reverse_complement(b + b"ACGT"))
     spec = _spec_table()
     one = simple.reverse_complement(b)
-    bad = rc != b + b"ACGT" or one != bytes([spec[args[0]]])
+    bad = rc != b + b"ACGT" or one != bytes([spec[args[0]]]) or len(one) != 1
     return {"reproduced": bool(bad), "observed": f"byte {b!r}: rc={one!r} expected {bytes([spec[args[0]]])!r}; rc(rc(x+ACGT))={rc!r}"}
 
 
@@ -226,6 +265,8 @@ def conditions(tier):
               encodes=("simple.reverse_complement", "simple.IUPAC_COMPLEMENT")),
     ]
     src_q = HEAD + "".join(_rev_fn(k) for k in REV_Q)
+    out.append(Cond("reverse_after_in_place_edits", src_q, "reverse_after_edits", 300,
+                    "history reverse / add_row x2 / reverse / append_scaffold / reverse / grow the reversed copy / reverse; coordinates unbounded, strands symbolic", encodes=ENC1))
     for k in REV_Q:
         out.append(Cond(f"scaffold_reverse_{k}", src_q, f"rev_{k}", 300,
                         f"rows {k}: contig starts/lengths and gap lengths unbounded, every strand symbolic in {{-1,0,1}}, concrete tag tuples", encodes=ENC1))
